@@ -264,6 +264,113 @@ func runC02(ctx *core.Ctx) {
 			ctx.Bad("N4", "testscript.parse#chunks", parse.Pos(), "expected expanded and raw chunk appends in the tokenizer, found %d", k)
 		}
 	}
+	// ---- N6: separator bytes split unconditionally outside quotes
+	ctx.Rule("N6", "separator tests: outside quotes each of blank, tab and '#' ends the current word unconditionally - the true edge of every comparison of the current byte with one of these constants leads straight to the same word-ending block, with no further condition in between", 1)
+	{
+		g := graph(p, parse)
+		line := parse.Params[1]
+		targets := map[int][]string{}
+		where := map[int][]int{}
+		n := 0
+		g.Instrs(func(i ssa.Instruction) {
+			ifi, ok := i.(*ssa.If)
+			if !ok {
+				return
+			}
+			b, ok := ifi.Cond.(*ssa.BinOp)
+			if !ok || b.Op != token.EQL {
+				return
+			}
+			k, ok := ssax.ConstInt(b.Y)
+			if !ok || (k != ' ' && k != '\t' && k != '#') {
+				return
+			}
+			if !isElemLoad(line, anyVal)(b.X) {
+				return
+			}
+			// only tests in the not-quoted region
+			if !hasFact(g.FactsAtInstr(ifi), false, func(v ssa.Value) bool { ph, ok := v.(*ssa.Phi); return ok && ph.Type().String() == "bool" }) {
+				return
+			}
+			n++
+			t := ifi.Block().Succs[0].Index
+			targets[t] = append(targets[t], string(rune(k)))
+			where[t] = append(where[t], ifi.Block().Index)
+		})
+		// tests made inside the word-ending block itself (e.g. "is this '#', then stop") are not split tests
+		for t := range targets {
+			for t2, blocks := range where {
+				if t2 == t {
+					continue
+				}
+				inside := true
+				for _, b := range blocks {
+					if !g.DomBlock(t, b) {
+						inside = false
+					}
+				}
+				if inside && len(targets[t]) >= 3 {
+					n -= len(targets[t2])
+					delete(targets, t2)
+				}
+			}
+		}
+		switch {
+		case n == 0:
+			ctx.Note("N6", "testscript.parse#separators", parse.Pos(), "separator comparisons not found in the tokenizer (moved into a helper?): clause not decided")
+			ctx.OKTrivial("N6", "testscript.parse#separators-unrecognised", parse.Pos(), "not decided")
+		case len(targets) == 1 && n >= 3:
+			ctx.OK("N6", "testscript.parse#separators", parse.Pos(), "%d separator tests, all leading directly to the word-ending block", n)
+		default:
+			ctx.Bad("N6", "testscript.parse#separators", parse.Pos(), "separator tests lead to %d different blocks (%v): some separator byte ends a word only under an extra condition, so e.g. 'word#comment' is no longer cut at '#'", len(targets), targets)
+		}
+	}
+	// ---- N7: env NAME=VALUE splits at the first '=' only
+	ctx.Rule("N7", "env assignment: the env command passes Setenv the text before the first '=' and everything after it (strings.Index/IndexByte slices, strings.Cut, or SplitN with limit 2); a value may itself contain '='", 1)
+	if cmdEnv := p.Func("testscript", "(*TestScript).cmdEnv"); cmdEnv != nil {
+		g := graph(p, cmdEnv)
+		k := 0
+		for _, c := range g.Calls(ssax.FuncName(setenv)) {
+			k++
+			a1, a2 := c.Call.Args[1], c.Call.Args[2]
+			ok := false
+			s1, ok1 := a1.(*ssa.Slice)
+			s2, ok2 := a2.(*ssa.Slice)
+			if ok1 && ok2 && s1.X == s2.X && s1.Low == nil && s2.High == nil {
+				if ic, isC := s1.High.(*ssa.Call); isC {
+					nm := ssax.CalleeName(&ic.Call)
+					if (nm == "strings.Index" || nm == "strings.IndexByte") && ic.Call.Args[0] == s1.X {
+						if lo, isB := s2.Low.(*ssa.BinOp); isB && lo.Op == token.ADD && lo.X == ssa.Value(ic) && isConstIntV(1)(lo.Y) {
+							ok = true
+						}
+					}
+				}
+			}
+			if e1, isE := a1.(*ssa.Extract); isE {
+				if cc, isC := e1.Tuple.(*ssa.Call); isC && ssax.CalleeName(&cc.Call) == "strings.Cut" {
+					if e2, isE2 := a2.(*ssa.Extract); isE2 && e2.Tuple == e1.Tuple && e1.Index == 0 && e2.Index == 1 {
+						ok = true
+					}
+				}
+			}
+			for _, a := range []ssa.Value{a1, a2} {
+				if ssax.DerivedFrom(a, func(v ssa.Value) bool {
+					cc, isC := v.(*ssa.Call)
+					if !isC || ssax.CalleeName(&cc.Call) != "strings.SplitN" {
+						return false
+					}
+					lim, isK := ssax.ConstInt(cc.Call.Args[2])
+					return isK && lim == 2
+				}, nil) {
+					ok = true
+				}
+			}
+			ctx.Check(ok, "N7", "testscript.cmdEnv#split"+itoa(k), c.Pos(), "NAME=VALUE is split at the first '=' only")
+		}
+		if k == 0 {
+			ctx.Bad("N7", "testscript.cmdEnv#split", cmdEnv.Pos(), "the env command does not go through Setenv")
+		}
+	}
 	// ---- N5
 	{
 		var cb *ssa.Function
